@@ -6,6 +6,12 @@ import os
 import vlib
 
 PROPS = "Properties_C18"
+EXTRA_PROPS = ["Properties_errno"]   # errno -> status table regenerated from errno_status.c on every run
+
+
+def REGEN(ctx):
+    vlib.regen_errno(ctx)
+
 WRAP = ("-Wl,--wrap=pthread_create,--wrap=pthread_attr_setstacksize,--wrap=pthread_attr_init,"
         "--wrap=pthread_attr_destroy,--wrap=pthread_join")
 RULE = ("S: requested sizes from a boundary set (0, 1, PTHREAD_STACK_MIN+-1, 64K..32M, default+-1, 2^32, 2^40, random) x "
